@@ -2,99 +2,175 @@
 (***************************************************************************)
 (* C05 - geometry of the placement, exact lattice instance.                *)
 (*                                                                         *)
-(* Linear chains are grown in a periodic cubic box of L x L x L lattice    *)
+(* Molecules are grown in a periodic cubic box of L x L x L lattice        *)
 (* sites (spacing h = step length: residue size and step factor are        *)
 (* chosen so that one step is one lattice unit).  The bundle of unit       *)
 (* vectors handed to the random walk is the six lattice directions, so a   *)
 (* draw is the choice of an index into the (shrinking) bundle, and the new *)
-(* position is  (pos[prev] + direction) mod L  - exactly what              *)
-(* _take_step / pbc_complete compute.  A draw is accepted iff no           *)
-(* positioned residue sits on the target site (on the lattice every other  *)
-(* soft-sphere force is far below the limit; the harness monitor           *)
-(* recomputes it).  A start point is a random grid point, accepted iff     *)
-(* free.  A placement whose draws are all rejected abandons the attempt    *)
+(* position is  (pos[parent] + direction) mod L  - exactly what            *)
+(* _take_step / pbc_complete compute.  A start point is a random grid      *)
+(* point.  A placement whose draws are all rejected abandons the attempt   *)
 (* (rewind depth larger than the chain): the molecule is removed and       *)
 (* started again.                                                          *)
+(*                                                                         *)
+(* Acceptance.  Force = FALSE: residue size = h, step factor 1; a point is *)
+(* accepted iff no positioned residue sits on the target site (every       *)
+(* soft-sphere force on the lattice is far below the limit; the harness    *)
+(* monitor recomputes it).  Force = TRUE: residue size = 2h, step factor   *)
+(* 1/2, force limit 4e4, L odd: the force criterion is decided exactly on  *)
+(* the lattice too - see ForceOK.                                          *)
+(*                                                                         *)
+(* History.  One process builds the systems History[1], History[2], ...    *)
+(* one after the other (library use, a parameter scan, a test session).    *)
+(* A molecule is named by its index ("C1", "C2", ...) in every system, but *)
+(* its residue graph (chain / ring / star), its length and the number of   *)
+(* molecules are those of the system being built.  `memo` is what the      *)
+(* process remembers from one build to the next (which system a molecule   *)
+(* name was first seen in).  The design does not read it: acceptance is a  *)
+(* function of the current system and the current positions only           *)
+(* (ForceWithinLimit, NoOverlap are stated over the current system).       *)
+(* Dev.staleNeighbours reads it.                                           *)
 (***************************************************************************)
 EXTENDS Integers, Sequences, FiniteSets, TLC, SequencesExt
 
 CONSTANTS L,          \* box edge in lattice units
-          Chains,     \* Seq of chain lengths (molecule m has residues 1..Chains[m])
-          Closed,     \* molecules that are rings: residue Chains[m] is also bonded to residue 1 (grown in the same order)
+          History,    \* Seq of systems built in one process; a system is [chains |-> Seq of lengths (molecule m has residues 1..chains[m]),
+                      \*   closed |-> molecules that are rings (residue chains[m] is also bonded to residue 1, grown in the same order),
+                      \*   stars |-> molecules whose residues 2.. are all bonded to (and grown from) residue 1]
           Grid,       \* set of start points (lattice points)
           Bundle,     \* Seq of direction ids 1..6: the vector bundle given to update_positions
           MaxIter,    \* RandomWalk.maxiter: a placement gives up at the (MaxIter+1)-th rejected draw
           MaxReject,  \* model bound on the total number of rejected draws / starts in a behaviour (negative: no bound, `rejects` frozen)
+          Force,      \* TRUE: residue size two lattice units, step factor 1/2: the force criterion decides on the lattice
           Dev
-VARIABLES pos, mol, k, bundle, draws, rejects, pc, last
-vars == <<pos, mol, k, bundle, draws, rejects, pc, last>>
+VARIABLES pos, mol, k, bundle, draws, rejects, pc, last,
+          build,      \* index of the system being built
+          memo        \* molecule name -> index of the first system in which a molecule of that name was started (0: never)
+vars == <<pos, mol, k, bundle, draws, rejects, pc, last, build, memo>>
+
+ASSUME Force => L = 3          \* odd box edge (the minimum image of every lattice offset is unique) and no offsets beyond d2 = 3 (see ForceOK)
 
 None == <<-1, -1, -1>>
 Dir == << <<1,0,0>>, <<-1,0,0>>, <<0,1,0>>, <<0,-1,0>>, <<0,0,1>>, <<0,0,-1>> >>
+NBuilds == Len(History)
+Sys == History[build]
+Chains == Sys.chains
+Closed == Sys.closed
+Stars == Sys.stars
 NMol == Len(Chains)
+Names == 1..(CHOOSE n \in {Len(History[b].chains) : b \in 1..NBuilds} : \A b \in 1..NBuilds : Len(History[b].chains) <= n)
 Mod(a, m) == ((a % m) + m) % m
 Wrap(p) == IF Dev.noWrap THEN p ELSE <<Mod(p[1], L), Mod(p[2], L), Mod(p[3], L)>>
 StepFrom(p, d) == Wrap(<<p[1] + Dir[d][1], p[2] + Dir[d][2], p[3] + Dir[d][3]>>)
 AllRes == UNION {{<<m, i>> : i \in 1..Chains[m]} : m \in 1..NMol}
+Placed(m, i) == pos[m][i] # None
 Sites == { pos[mi[1]][mi[2]] : mi \in AllRes } \ {None}
+\* the residue a residue is grown from
+Parent(m, i) == IF m \in Stars THEN 1 ELSE i - 1
+\* residue graph of molecule m in system s: the residues bonded to residue i
+BondedIn(s, m, i) == LET n == s.chains[m] IN
+    { j \in 1..n : j # i /\ IF m \in s.stars THEN (i = 1 \/ j = 1)
+                            ELSE (j = i + 1 \/ j = i - 1 \/ (m \in s.closed /\ n > 2 /\ {i, j} = {1, n})) }
+Bonded(m, i) == BondedIn(Sys, m, i)
+\* the residues left out of the force sum for residue (m, i): its neighbours in the residue graph of the CURRENT system.
+\* Dev.staleNeighbours: the neighbour table remembered for the molecule name from the first system that had such a molecule
+Excluded(m, i) == IF Dev.staleNeighbours /\ memo[m] # 0 /\ i <= History[memo[m]].chains[m]
+                  THEN BondedIn(History[memo[m]], m, i) \cap (1..Chains[m])
+                  ELSE Bonded(m, i)
 \* a site is free iff NO positioned residue sits on it - bonded neighbours included (the ring-closing residue of a
 \* 3-ring can step back onto residue 1; Dev.neighboursExempt models a test that skips excluded neighbours)
 NeighbourSites == IF Dev.neighboursExempt /\ pc = "grow" /\ mol \in Closed /\ k = Chains[mol] THEN {pos[mol][1]} ELSE {}
 Free(p) == Dev.noOverlapTest \/ Wrap(p) \notin ({ Wrap(q) : q \in Sites } \ NeighbourSites)
 DropAt(s, i) == SubSeq(s, 1, i - 1) \o SubSeq(s, i + 1, Len(s))
 
-Init == /\ pos = [m \in 1..NMol |-> [i \in 1..Chains[m] |-> None]]
+(* ---- the force criterion on the lattice (Force = TRUE) ----                                                         *)
+(* With residue size sigma = 2h, epsilon = 1 and h = 0.5 nm the 12-6 force between two residues at lattice offset o    *)
+(* (d2 = o.o) has the components  24 (2 (4/d2)^6 - (4/d2)^3) 2 o_c / d2 :  390144 o_c for d2 = 1, 2880 o_c for d2 = 2, *)
+(* 141.87 o_c for d2 = 3 (no other offsets exist for L = 3; the cut-off 2 sigma covers the whole box).  At most four   *)
+(* sites of each of the classes d2 = 2, 3 lie on one side of an axis.  With the limit 4e4:  one unbalanced residue at  *)
+(* d2 = 1 gives a component above the limit whatever else is there, and without one the norm stays below it:           *)
+\* the four numbers divided by 8 (FC rounded up)
+FA == 48768
+FB == 360
+FC == 18
+FLimit == 5000
+ASSUME FA - 4 * FB - 4 * FC > FLimit /\ 3 * (4 * FB + 4 * FC) * (4 * FB + 4 * FC) < FLimit * FLimit
+Cen(d) == LET r == Mod(d, L) IN IF 2 * r > L THEN r - L ELSE r
+Off(p, q) == <<Cen(q[1] - p[1]), Cen(q[2] - p[2]), Cen(q[3] - p[3])>>
+Unit(c, s) == [x \in 1..3 |-> IF x = c THEN s ELSE 0]
+\* positioned residues other than (m, i) that are not in the set ex of residues of the same molecule
+Others(m, i, ex) == { b \in AllRes : Placed(b[1], b[2]) /\ b # <<m, i>> /\ ~(b[1] = m /\ b[2] \in ex) }
+\* the force on a residue at p from the residues in S is within the limit iff on every axis the adjacent sites on the two sides
+\* hold equally many of them
+Balanced(p, S) == \A c \in 1..3 : Cardinality({ b \in S : Off(p, pos[b[1]][b[2]]) = Unit(c, 1) })
+                                = Cardinality({ b \in S : Off(p, pos[b[1]][b[2]]) = Unit(c, -1) })
+ForceOK(p, m, i) == (~Force) \/ Dev.noForceTest \/ Balanced(Wrap(p), Others(m, i, Excluded(m, i)))
+Acceptable(p, m, i) == Free(p) /\ ForceOK(p, m, i)
+
+FreshPos(b) == [m \in 1..Len(History[b].chains) |-> [i \in 1..History[b].chains[m] |-> None]]
+Init == /\ build = 1 /\ memo = [n \in Names |-> 0]
+        /\ pos = FreshPos(1)
         /\ mol = 1 /\ k = 1 /\ bundle = Bundle /\ draws = 0 /\ rejects = 0 /\ pc = "start" /\ last = [ev |-> "init"]
 
 CanReject == MaxReject < 0 \/ rejects < MaxReject
 BumpRejects == IF MaxReject < 0 THEN rejects ELSE rejects + 1
+Remember == memo' = IF memo[mol] = 0 THEN [memo EXCEPT ![mol] = build] ELSE memo
 \* _handle_random_walk draws a grid point; _random_walk accepts it iff the root does not overlap
-StartOk(g) == /\ pc = "start" /\ mol <= NMol /\ Free(g)
+StartOk(g) == /\ pc = "start" /\ mol <= NMol /\ Acceptable(g, mol, 1)
               /\ pos' = [pos EXCEPT ![mol][1] = g]
               /\ k' = 2 /\ bundle' = Bundle /\ draws' = 0
               /\ pc' = IF Chains[mol] = 1 THEN "accept" ELSE "grow"
               /\ last' = [ev |-> "start", m |-> mol, g |-> g, ok |-> TRUE]
-              /\ UNCHANGED <<mol, rejects>>
-StartRejected(g) == /\ pc = "start" /\ mol <= NMol /\ ~Free(g) /\ CanReject
+              /\ Remember
+              /\ UNCHANGED <<mol, rejects, build>>
+StartRejected(g) == /\ pc = "start" /\ mol <= NMol /\ ~Acceptable(g, mol, 1) /\ CanReject
                     /\ rejects' = BumpRejects /\ pc' = "abandon"
                     /\ last' = [ev |-> "start", m |-> mol, g |-> g, ok |-> FALSE]
-                    /\ UNCHANGED <<pos, mol, k, bundle, draws>>
+                    /\ Remember
+                    /\ UNCHANGED <<pos, mol, k, bundle, draws, build>>
 \* one draw of update_positions: index i into the current bundle
-Target(i) == StepFrom(pos[mol][k - 1], bundle[i])
-DrawAccept(i) == /\ pc = "grow" /\ i \in 1..Len(bundle) /\ Free(Target(i))
+Target(i) == StepFrom(pos[mol][Parent(mol, k)], bundle[i])
+DrawAccept(i) == /\ pc = "grow" /\ i \in 1..Len(bundle) /\ Acceptable(Target(i), mol, k)
                  /\ pos' = [pos EXCEPT ![mol][k] = Target(i)]
                  /\ k' = k + 1 /\ bundle' = Bundle /\ draws' = 0
                  /\ pc' = IF k = Chains[mol] THEN "accept" ELSE "grow"
                  /\ last' = [ev |-> "draw", m |-> mol, r |-> k, i |-> i, to |-> Target(i), ok |-> TRUE]
-                 /\ UNCHANGED <<mol, rejects>>
-DrawReject(i) == /\ pc = "grow" /\ i \in 1..Len(bundle) /\ ~Free(Target(i)) /\ CanReject
+                 /\ UNCHANGED <<mol, rejects, build, memo>>
+DrawReject(i) == /\ pc = "grow" /\ i \in 1..Len(bundle) /\ ~Acceptable(Target(i), mol, k) /\ CanReject
                  /\ rejects' = BumpRejects
                  /\ last' = [ev |-> "draw", m |-> mol, r |-> k, i |-> i, to |-> Target(i), ok |-> FALSE]
                  /\ IF draws = MaxIter
                     THEN /\ pc' = "abandon" /\ UNCHANGED <<bundle, draws>>
                     ELSE /\ bundle' = DropAt(bundle, i) /\ draws' = draws + 1 /\ pc' = "grow"
-                 /\ UNCHANGED <<pos, mol, k>>
+                 /\ UNCHANGED <<pos, mol, k, build, memo>>
 \* the attempt is abandoned: everything built for this molecule is removed, a new start is drawn
 Abandon == /\ pc = "abandon"
            /\ pos' = [pos EXCEPT ![mol] = [i \in 1..Chains[mol] |-> None]]
            /\ k' = 1 /\ bundle' = Bundle /\ draws' = 0 /\ pc' = "start"
            /\ last' = [ev |-> "abandon", m |-> mol]
-           /\ UNCHANGED <<mol, rejects>>
+           /\ UNCHANGED <<mol, rejects, build, memo>>
 Accept == /\ pc = "accept"
-          /\ mol' = mol + 1 /\ k' = 1 /\ pc' = IF mol = NMol THEN "done" ELSE "start"
+          /\ mol' = mol + 1 /\ k' = 1 /\ pc' = IF mol = NMol THEN (IF build = NBuilds THEN "done" ELSE "built") ELSE "start"
           /\ last' = [ev |-> "accept", m |-> mol]
-          /\ UNCHANGED <<pos, bundle, draws, rejects>>
+          /\ UNCHANGED <<pos, bundle, draws, rejects, build, memo>>
+\* the next system of the history: a new topology, a new engine, nothing positioned; the process (memo) lives on
+NextBuild == /\ pc = "built"
+             /\ build' = build + 1 /\ pos' = FreshPos(build + 1)
+             /\ mol' = 1 /\ k' = 1 /\ bundle' = Bundle /\ draws' = 0 /\ pc' = "start"
+             /\ last' = [ev |-> "build", b |-> build + 1]
+             /\ UNCHANGED <<rejects, memo>>
 Next == \/ \E g \in Grid : StartOk(g) \/ StartRejected(g)
         \/ \E i \in 1..Len(Bundle) : DrawAccept(i) \/ DrawReject(i)
-        \/ Abandon \/ Accept
+        \/ Abandon \/ Accept \/ NextBuild
 Spec == Init /\ [][Next]_vars
 
 (* ------------------------------ P-layer ------------------------------ *)
+(* every law is stated over the system being built and the positions in it *)
 D1(a, b) == LET d == Mod(a - b, L) IN IF d < L - d THEN d ELSE L - d
 D2(p, q) == D1(p[1], q[1]) * D1(p[1], q[1]) + D1(p[2], q[2]) * D1(p[2], q[2]) + D1(p[3], q[3]) * D1(p[3], q[3])
-Placed(m, i) == pos[m][i] # None
 \* exactly one step (minimum image) from the residue it was grown from
-StepOne == \A mi \in AllRes : (mi[2] > 1 /\ Placed(mi[1], mi[2]) /\ Placed(mi[1], mi[2] - 1)) => D2(pos[mi[1]][mi[2]], pos[mi[1]][mi[2] - 1]) = 1
+StepOne == \A mi \in AllRes : (mi[2] > 1 /\ Placed(mi[1], mi[2]) /\ Placed(mi[1], Parent(mi[1], mi[2])))
+                                 => D2(pos[mi[1]][mi[2]], pos[mi[1]][Parent(mi[1], mi[2])]) = 1
 \* inside the periodic box
 InBox == \A mi \in AllRes : Placed(mi[1], mi[2]) => \A c \in 1..3 : pos[mi[1]][mi[2]][c] \in 0..(L - 1)
 \* never on the site of another positioned residue (closer than 0.1 nm)
@@ -102,6 +178,11 @@ NoOverlap == \A a, b \in AllRes : (a # b /\ Placed(a[1], a[2]) /\ Placed(b[1], b
 \* the first residue of a molecule without coordinates sits on a grid point
 RootOnGrid == \A m \in 1..NMol : Placed(m, 1) => pos[m][1] \in Grid
 \* residues are grown in order from a positioned predecessor
-Contiguous == \A mi \in AllRes : (mi[2] > 1 /\ Placed(mi[1], mi[2])) => Placed(mi[1], mi[2] - 1)
-Final == pc = "done" => \A mi \in AllRes : Placed(mi[1], mi[2])
+Contiguous == \A mi \in AllRes : (mi[2] > 1 /\ Placed(mi[1], mi[2])) => Placed(mi[1], Parent(mi[1], mi[2]))
+Final == pc \in {"done", "built"} => \A mi \in AllRes : Placed(mi[1], mi[2])
+\* none is accepted while the force on it from the positioned non-neighbours exceeds the limit: evaluated in the state right after
+\* the acceptance, with the neighbours of the residue graph of the system being built - whatever was built before in this process
+ForceWithinLimit == (Force /\ last.ev \in {"start", "draw"} /\ last.ok) =>
+                       LET i == IF last.ev = "start" THEN 1 ELSE last.r
+                       IN Balanced(pos[last.m][i], Others(last.m, i, Bonded(last.m, i)))
 =============================================================================
